@@ -659,7 +659,7 @@ def mutate(rng, spec, ci):
 # ------------------------------------------------------------------------------------------------ hand-written calls (subgraph operators)
 
 
-HAND_NAMES = ["hand_if_add_mul", "hand_loop_carry_scan"]
+HAND_NAMES = ["hand_if_add_mul", "hand_loop_carry_scan", "hand_sequencemap_add"]
 
 
 def hand_plans(v):
@@ -726,7 +726,76 @@ def hand_plans(v):
 
     plans.append(mk("Loop", "hand_loop_carry_scan", loop_kw, [("O", 0), ("O", None), ("V", [1])], [t_i, t_f23],
                     {"body": ([["T", I, [1]], ["T", B, [1]], t_f23], [["T", B, [1]], t_f23, t_f23])}, loop_ref, 2))
+    # SequenceMap: body over the element type
+    t_seq = ["S", t_f23]
+
+    def sm_kw(vs):
+        return {"input_sequence": vs[0], "additional_inputs": [], "body": lambda x: [op.add(x, x)]}
+
+    def sm_ref(outs):
+        body = helper.make_graph([helper.make_node("Add", ["e", "e"], ["e_out"])], "body",
+                                 [helper.make_value_info("e", L.typeproto_of_tspec(t_f23))],
+                                 [helper.make_value_info("e_out", L.typeproto_of_tspec(t_f23))])
+        n = helper.make_node("SequenceMap", ["s"], outs, body=body)
+        g = helper.make_graph([n], "ref", [helper.make_value_info("s", L.typeproto_of_tspec(t_seq))],
+                              [helper.make_value_info(o, onnx.TypeProto()) for o in outs])
+        return helper.make_model(g, opset_imports=[helper.make_operatorsetid("", v)])
+
+    if "SequenceMap" in op._OPERATORS:
+        plans.append(mk("SequenceMap", "hand_sequencemap_add", sm_kw, [("S", 0), ("V", [])], [t_seq],
+                        {"body": ([t_f23], [t_f23])}, sm_ref, 1))
     return plans
+
+
+def synthetic_specs(v):
+    """Hand-written NodeProtos (valid calls) for operators without a usable corpus case; they go through the generic
+    path and are mutated like corpus cases."""
+    F, D, I64, I32, B = TensorProto.FLOAT, TensorProto.DOUBLE, TensorProto.INT64, TensorProto.INT32, TensorProto.BOOL
+
+    def T(e, *sh):
+        return ["T", e, list(sh)]
+
+    seq = ["S", T(F, 2, 3)]
+    items = [
+        ("GlobalLpPool", ["X"], {"X": T(F, 1, 3, 5, 5)}, {"p": 2}, {}),
+        ("MaxRoiPool", ["X", "rois"], {"X": T(F, 1, 3, 8, 8), "rois": T(F, 2, 5)}, {"pooled_shape": [2, 2], "spatial_scale": 1.0}, {}),
+        ("Multinomial", ["input"], {"input": T(F, 2, 4)}, {"sample_size": 3, "dtype": 6}, {}),
+        ("RandomNormal", [], {}, {"shape": [2, 3], "dtype": 1, "mean": 0.0, "scale": 1.0}, {}),
+        ("RandomUniform", [], {}, {"shape": [2, 3], "dtype": 11, "high": 1.0, "low": 0.0}, {}),
+        ("RandomNormalLike", ["input"], {"input": T(F, 2, 3)}, {}, {}),
+        ("RandomUniformLike", ["input"], {"input": T(I64, 2, 3)}, {"dtype": 1}, {}),
+        ("Optional", ["input"], {"input": T(F, 2)}, {}, {}),
+        ("OptionalHasElement", ["o"], {"o": ["O", T(F, 2)]}, {}, {}),
+        ("OptionalGetElement", ["o"], {"o": ["O", T(F, 2)]}, {}, {}),
+        ("SequenceConstruct", ["a", "b"], {"a": T(F, 2, 3), "b": T(F, 2, 3)}, {}, {}),
+        ("SequenceEmpty", [], {}, {"dtype": 7}, {}),
+        ("SequenceAt", ["s", "p"], {"s": seq, "p": T(I64)}, {}, {}),
+        ("SequenceErase", ["s", "p"], {"s": seq, "p": T(I64)}, {}, {}),
+        ("SequenceErase", ["s"], {"s": seq}, {}, {}),
+        ("SequenceInsert", ["s", "t", "p"], {"s": seq, "t": T(F, 2, 3), "p": T(I64)}, {}, {}),
+        ("SequenceLength", ["s"], {"s": seq}, {}, {}),
+        ("ConcatFromSequence", ["s"], {"s": seq}, {"axis": 0}, {}),
+        ("ConcatFromSequence", ["s"], {"s": seq}, {"axis": 1, "new_axis": 1}, {}),
+        ("SplitToSequence", ["x", "split"], {"x": T(F, 6, 2), "split": T(I64, 2)}, {"axis": 0},
+         {"split": np.array([2, 4], dtype=np.int64)}),
+        ("Reshape", ["data", "shape"], {"data": T(F, 2, 3, 4), "shape": T(I64, 2)}, {}, {"shape": np.array([6, -1], dtype=np.int64)}),
+        ("Range", ["start", "limit", "delta"], {"start": T(I64), "limit": T(I64), "delta": T(I64)}, {},
+         {"start": np.array(1, dtype=np.int64), "limit": np.array(9, dtype=np.int64), "delta": np.array(2, dtype=np.int64)}),
+    ]
+    for red in ("ReduceL1", "ReduceL2", "ReduceLogSum", "ReduceLogSumExp", "ReduceMean", "ReduceSumSquare", "ReduceMax", "ReduceMin", "ReduceProd"):
+        items.append((red, ["data"], {"data": T(F, 3, 2, 2)}, {"axes": [1], "keepdims": 1}, {}))
+        items.append((red, ["data"], {"data": T(F, 3, 2, 2)}, {"keepdims": 0}, {}))
+        items.append((red, ["data", "axes"], {"data": T(F, 3, 2, 2), "axes": T(I64, 1)}, {"keepdims": 1},
+                      {"axes": np.array([-1], dtype=np.int64)}))
+    out = []
+    m = module(v)
+    for idx, (opname, ins, types, attrs, consts) in enumerate(items):
+        if opname not in m._OPERATORS:
+            continue
+        node = helper.make_node(opname, ins, ["out0"], **attrs)
+        out.append({"v": v, "op": opname, "src": f"synthetic_{idx}_{opname}", "mut": "synthetic", "node": node,
+                    "intypes": dict(types), "consts": dict(consts), "const_via": "initializer", "_data": dict(consts)})
+    return out
 
 
 # ------------------------------------------------------------------------------------------------ evaluation of one plan
@@ -1136,10 +1205,21 @@ def run(run: Run) -> int:
                     continue
             seen_con.add(key)
             base_specs.append(s)
+    for v in VERSIONS:
+        for s in synthetic_specs(v):
+            key = (id(info(v, s["op"]).con), s["src"])
+            if key in seen_con:
+                cov_ops[v].add(s["op"])
+                if run.tier == "quick":
+                    continue
+            seen_con.add(key)
+            base_specs.append(s)
     all_specs = list(base_specs)
+    hand_ops = {"hand_if_add_mul": "If", "hand_loop_carry_scan": "Loop", "hand_sequencemap_add": "SequenceMap"}
     for v in VERSIONS:
         for name in HAND_NAMES:
-            all_specs.append({"v": v, "op": name.split("_")[1].capitalize(), "src": name, "mut": "hand", "hand": name})
+            if hand_ops[name] in module(v)._OPERATORS:
+                all_specs.append({"v": v, "op": hand_ops[name], "src": name, "mut": "hand", "hand": name})
     tries = 0
     n_base = len(all_specs)
     while len(all_specs) - n_base < n_mut and tries < n_mut * 8:
@@ -1180,7 +1260,7 @@ def run(run: Run) -> int:
         for k, n in rec["st"].items():
             st[k] = st.get(k, 0) + n
         jobs += rec["jobs"]
-        if mk in ("corpus", "hand", "other-schema"):
+        if mk in ("corpus", "hand", "other-schema", "synthetic"):
             cov_ops[spec["v"]].add(spec["op"])
             if tag == "both-accept" and mk != "other-schema":
                 valid_ops[spec["v"]].add(spec["op"])
